@@ -754,6 +754,101 @@ def links_stream(ctx, res, n):
                     break
 
 
+def position_and_nesting_stream(ctx, res):
+    """two shapes of the path: (a) a rejected map that is assigned to an existing position of a list of configurations, inserted at a
+    position, or assigned to a slice is reported under the position it was meant for (recorded finding F63: the code names
+    len(list), a position that does not exist); appended or loaded items are reported under their own position; (b) a typed dict
+    used as the item field of a typed list reports a rejected entry under the list field's path (recorded finding F62: the path
+    lacks the list field's key, 'app.[k]')"""
+    import cincoconfig as cc
+    srv = cc.Schema()
+    srv.host = cc.StringField(default="h")
+    srv.port = cc.PortField(default=80)
+    for typed in (False, True):
+        T = cc.make_type(srv, "PosSrv") if typed else srv
+        s = cc.Schema()
+        s.lb.servers = cc.ListField(T, default=lambda: [])
+        bad = {"host": "x", "port": "not a port"}
+        for op, want in (("setitem-0", 0), ("setitem-2", 2), ("setitem-neg1", 2), ("insert-1", 1), ("insert-0", 0), ("slice-1-2", 1), ("append", 3), ("extend-second", 4), ("iadd-first", 3)):
+            cfg = s()
+            cfg.lb.servers = [{"host": "a"}, {"host": "b"}, {"host": "c"}]
+            lst = cfg.lb.servers
+            try:
+                if op == "setitem-0":
+                    lst[0] = dict(bad)
+                elif op == "setitem-2":
+                    lst[2] = dict(bad)
+                elif op == "setitem-neg1":
+                    lst[-1] = dict(bad)
+                elif op == "insert-1":
+                    lst.insert(1, dict(bad))
+                elif op == "insert-0":
+                    lst.insert(0, dict(bad))
+                elif op == "slice-1-2":
+                    lst[1:2] = [dict(bad)]
+                elif op == "append":
+                    lst.append(dict(bad))
+                elif op == "extend-second":
+                    lst.extend([{"host": "ok"}, dict(bad)])
+                else:
+                    lst += [dict(bad), {"host": "ok"}]
+                err = None
+            except cc.ValidationError as e:
+                err = e
+            except Exception as e:  # noqa
+                err = e
+            case = {"stream": "position", "config_type": typed, "op": op, "expected": "lb.servers[%d].port" % want}
+            res.case(stable(case), kind="position:" + op)
+            if err is None:
+                res.violate("C15:position:accepted", "a map with an invalid value was accepted as an item of a configuration list", case)
+            elif not isinstance(err, cc.ValidationError):
+                res.violate("C15:not-validation-error", "a rejected item surfaced as %s" % type(err).__name__, case)
+            elif err.ref_path != "lb.servers[%d].port" % want or not str(err).startswith("lb.servers[%d].port" % want):
+                placed = op.split("-")[0] in ("setitem", "insert", "slice")
+                res.violate("C15:wrong-index:replaced-or-inserted" if placed else "C15:wrong-index:appended",
+                            "the error for a rejected item of a configuration list names another position than the one the item was meant for",
+                            dict(case, ref_path=err.ref_path, text=str(err)[:100]))
+    # (b)
+    for where in ("root", "nested"):
+        for route in ("attribute", "load_tree", "constructor", "json", "append", "entry"):
+            s = cc.Schema()
+            h = s if where == "root" else s.app
+            h.rows = cc.ListField(cc.DictField(cc.StringField(), cc.IntField()), default=lambda: [])
+            rows = [{"a": 1}, {"k": "not a number"}]
+            tree = {"rows": rows} if where == "root" else {"app": {"rows": rows}}
+            prefix = "rows" if where == "root" else "app.rows"
+            try:
+                if route == "attribute":
+                    cfg = s()
+                    (cfg if where == "root" else cfg.app).rows = rows
+                elif route == "load_tree":
+                    s().load_tree(tree)
+                elif route == "constructor":
+                    s(**tree)
+                elif route == "json":
+                    s().loads(json.dumps(tree).encode(), format="json")
+                elif route == "append":
+                    cfg = s()
+                    (cfg if where == "root" else cfg.app).rows.append({"k": "not a number"})
+                else:
+                    cfg = s()
+                    c = cfg if where == "root" else cfg.app
+                    c.rows = [{"a": 1}]
+                    c.rows[0]["k"] = "not a number"
+                err = None
+            except Exception as e:  # noqa
+                err = e
+            case = {"stream": "dict-in-list", "where": where, "route": route, "expected_prefix": prefix}
+            res.case(stable(case), kind="dict-in-list:" + route)
+            if err is None:
+                res.violate("C15:position:accepted", "an invalid entry of a typed dict inside a typed list was accepted", case)
+            elif not isinstance(err, cc.ValidationError):
+                res.violate("C15:not-validation-error", "a rejected entry surfaced as %s" % type(err).__name__, case)
+            elif not err.ref_path.startswith(prefix) or "[k]" not in err.ref_path:
+                res.violate("C15:path-lacks-list-field:dict-in-list", "the error for a rejected entry of a typed dict inside a typed list does not name the list field "
+                            "(the path is not the full dotted path from the root)", dict(case, ref_path=err.ref_path, text=str(err)[:100]))
+
+
 def run(ctx, n_quick=250, n_thorough=8000):
     res = Result()
     P.run_stream(ctx, res, "C15", ctx.n(n_quick, n_thorough), oracle, gen_ops=gen_ops, ops_len=(8, 20))
@@ -762,6 +857,7 @@ def run(ctx, n_quick=250, n_thorough=8000):
     guard(res, "C15", container_path_stream, ctx, res, ctx.n(150, 4000))
     guard(res, "C15", merged_and_standalone_stream, ctx, res)
     guard(res, "C15", links_stream, ctx, res, ctx.n(120, 4000))
+    guard(res, "C15", position_and_nesting_stream, ctx, res)
     return res
 
 
